@@ -34,6 +34,16 @@ LEMMAS = [
     "Proofs.ArcTotal.arc_from_bytes_no_panic / arc_from_bytes_fuel_never_exhausted (relative to BinFormat.from_bytes)",
     "Proofs.ArcTotal.arc_body_never_longer_than_data : a body read on the strength of a size field is never longer than the data region",
     "Proofs.ArcTotal.arc_mode_independent, f9_unrepaired_checked_panics, f9_unrepaired_wrapping_reads_elsewhere, f9_repaired_rejects",
+    # absolute statements (every byte string; Proofs/TextArcTotal.v = TextTotal/ArcTotal + BinTotal.from_bytes_no_panic + bin_from_bytes_no_fuel)
+    "Proofs.TextArcTotal.bin_from_bytes_no_fuel : forall e f, BinFormat.from_bytes e f <> Err EOutOfFuel",
+    "Proofs.TextArcTotal.text_from_bytes_never_panics : forall fmt e f k, TextFormat.from_bytes fmt e f <> Panic k",
+    "Proofs.TextArcTotal.text_from_bytes_fuel_suffices : forall fmt e f, TextFormat.from_bytes fmt e f <> Err EOutOfFuel",
+    "Proofs.TextArcTotal.text_from_bytes_trace_never_panics",
+    "Proofs.TextArcTotal.text_accepted_reserializes : from_bytes fmt e f = Ok t -> forall m e', (exists f', serialize m fmt e' t = Ok f') /\\ no panic",
+    "Proofs.TextArcTotal.arc_from_bytes_never_panics : forall m f k, arc_from_bytes m f <> Panic k",
+    "Proofs.TextArcTotal.arc_from_bytes_fuel_suffices : forall m f, arc_from_bytes m f <> Err EOutOfFuel",
+    "Proofs.TextArcTotal.arc_from_bytes_trace_never_panics",
+    "Proofs.TextArcTotal.arc_bodies_bounded_by_file : from_bytes LE f = Ok a -> fst (r_read_bytes a address sz) = Ok b -> lenN b + 32 <= lenN f",
 ]
 
 BOUNDARY = [0, 1, 0x7FFFFFFF, 0x80000000] + list(range(0xFFFFFFF0, 0x100000000))
